@@ -151,6 +151,7 @@ class DSession:
             "core": model.project_core(d),
             "der": model.project_derived(d),
             "cache": model.project_cache(d),
+            "cache_other": model.project_cache_other(d),
             "subs": [self._oid_of(o) for o in d.subscribers],
             "hists": [
                 (
